@@ -54,7 +54,7 @@ func TestC05(t *testing.T) {
 		jobs := buildJobs(rt, c, f.Root, progRoot, plan, o, cs)
 		c.Sample(sampleOf(cs, jobs))
 		countNumericShapes(c, f)
-		return &RunCase{Case: cs, Jobs: jobs}
+		return &RunCase{Case: cs, Jobs: jobs, Model: modelIfSingle(cs, f)}
 	}, stdJudge)
 }
 
